@@ -18,6 +18,7 @@ VERIF = build.VERIF
 EVID = os.path.join(VERIF, "evidence")
 REPLAYS = os.path.join(VERIF, "replays")
 MAXPROC = int(os.environ.get("VERIF_JOBS", "16"))
+LAST_STDERR = ""
 
 
 def load_findings(pid):
@@ -121,10 +122,13 @@ def merge(results):
 def replay_once(exe, run, case):
     env = run_env(run)
     try:
-        r = subprocess.run([exe, "--replay-case", case], stdout=subprocess.PIPE, stderr=subprocess.STDOUT,
+        r = subprocess.run([exe, "--replay-case", case], stdout=subprocess.PIPE, stderr=subprocess.PIPE,
                            text=True, env=env, timeout=600, errors="replace")
     except subprocess.TimeoutExpired:
         return 124, "replay timed out"
+    # only stdout must be deterministic (sanitizer reports on stderr contain addresses)
+    global LAST_STDERR
+    LAST_STDERR = r.stderr
     return r.returncode, r.stdout
 
 
@@ -204,7 +208,7 @@ def check(pid, tier):
         with open(path, "w") as f:
             json.dump({"property": pid, "harness": run["harness"], "signature": v["sig"],
                        "count": v["count"], "detail": v["detail"], "case": v["case"],
-                       "observation": o1[-8000:]}, f, indent=1)
+                       "observation": o1[-8000:], "stderr": LAST_STDERR[-4000:]}, f, indent=1)
         print("VIOLATION property=%s replay=%s" % (pid, path))
         print("  signature: %s (x%d)\n  %s" % (v["sig"], v["count"], v["detail"][:600]))
         reported.append(v["sig"])
@@ -256,6 +260,7 @@ def replay(pid, path):
             exe = harness_exe(run)
             c, o = replay_once(exe, run, rp["case"])
             sys.stdout.write(o)
+            sys.stderr.write(LAST_STDERR[-6000:])
             return c
     print("no harness %s for %s" % (rp["harness"], pid))
     return 2
